@@ -56,7 +56,14 @@
    its first half at the clock value of the call and its second half [elapsed]
    later (that is the clock value its cache entry and the breaker's failure
    stamp carry), and the timeout in force is carried along and consulted by
-   nothing.  [run_case] runs this layer. *)
+   nothing.
+
+   Agents at large (Section World).  The executor / assessor are whatever objects the caller put
+   there.  The proteins they return may carry a `source_agent` label of their own ([WLabelled]),
+   which run() reads nowhere (the token's issuer is loop.assessor.name); and express() may raise a
+   BaseException that is not an Exception ([WAbort], [WEndAbort]), which `except Exception` does
+   not catch: run() is left by it after its first half and there is no reply.  [run_case] runs
+   this layer. *)
 From Coq Require Import ZArith List Bool.
 From Verif Require Import Common.Corr.
 Import ListNotations.
@@ -750,6 +757,124 @@ Definition retime (g : Z -> Z) (o : top) : top :=
   match o with TSetTimeout v => TSetTimeout (g v) | _ => o end.
 
 (* ---------------------------------------------------------------------- *)
+(* what else an agent may do: labelled proteins, exceptions that are not Exceptions *)
+
+(* The agents are whatever objects the caller puts into loop.executor / loop.assessor: stubs, BioAgents,
+   subclasses of BioAgent whose hook relays the protein of another agent.
+   (1) The ActionProtein an agent returns has a field `source_agent` (None by default, any string:
+       the agent's own name, the name of the helper whose protein is relayed, the OTHER agent's
+       name, a model label).  run()/_apply_gate_logic read action_type, payload and confidence of a
+       protein and nothing else: the issuer of a token is loop.assessor.name (line 289).  [WLabelled
+       sz sy o] is the operation [o] at which the proteins returned carry the labels [sz] / [sy].
+   (2) express() may raise a BaseException that is NOT an Exception (KeyboardInterrupt, SystemExit,
+       GeneratorExit, ...).  `except Exception` (line 229) does not catch it: run() is left by the
+       exception after its first half (lines 198-220: the breaker may have gone HALF_OPEN, an expired
+       cache entry may have been deleted) - the breaker is told nothing, nothing is stored, nothing
+       is logged, and there is NO reply.  [WAbort q who]: run(q_prompt q) in one go, the executor
+       ([who] = false) or - after the executor has answered [q_exec q] - the assessor ([who] = true)
+       raising such an exception; if the breaker rejects the request or the cache serves it, nobody
+       is asked and the reply is the usual one.  [WEndAbort id now who]: the same for the request
+       [id] that is in flight.  Where the executor raised an ordinary Exception the assessor is
+       never asked: that request is the plain one. *)
+Inductive wop :=
+| WPlain (o : top)
+| WLabelled (sz sy : option str) (o : top)
+| WAbort (q : req) (who : bool)
+| WEndAbort (id : Z) (now : Z) (who : bool).
+
+(* what the harness sees of one [wop]: an event as before, or "run() was left by the agent's
+   exception" with the timeout / configuration in force, who raised, and len(_cache) *)
+Inductive wev :=
+| WvOp (e : tev)
+| WvPropagated (tmo : Z) (cf : config) (bc : bconfig) (who : bool) (n : nat).
+
+(* the id under which the replies of [WAbort] requests that asked nobody appear *)
+Definition abort_id : Z := -2.
+
+(* is the assessor reached? *)
+Definition assessor_reached (q : req) (who : bool) : bool := who && raised (q_exec q).
+
+Section World.
+  Variable H : str -> str.
+  Variable K : str -> str.
+
+  (* lines 198-220 only; [None] = the agents were asked and run() was left by the exception *)
+  Definition abort_step (cf : config) (bc : bconfig) (x : xstate) (q : req) : xstate * option xev :=
+    let '(s, pend) := x in
+    let '(s1, r) := enter K cf bc s (q_prompt q) (q_time q) in
+    match r with
+    | ERejected => ((s1, pend), Some (EvReturned abort_id q (rejected_reply (length (fst s1))) false))
+    | EHit res => ((s1, pend), Some (EvReturned abort_id q (hit_reply res (length (fst s1))) true))
+    | EMiss => ((s1, pend), None)
+    end.
+
+  Definition wstep (t : tstate) (o : wop) : tstate * wev :=
+    match o with
+    | WPlain a => let '(t', e) := tstep H K t a in (t', WvOp e)
+    | WLabelled _ _ a => let '(t', e) := tstep H K t a in (t', WvOp e)      (* the labels are read by nothing *)
+    | WAbort q who =>
+        if assessor_reached q who
+        then let '(t', e) := tstep H K t (TPlain (RX (XAtomic (OReq q)))) in (t', WvOp e)
+        else
+          let '(tmo, (cf, bc, x)) := t in
+          let '(x', e) := abort_step cf bc x q in
+          ((tmo, (cf, bc, x')),
+           match e with
+           | Some e' => WvOp (tmo, RvOp cf bc e')
+           | None => WvPropagated tmo cf bc who (length (fst (fst x')))
+           end)
+    | WEndAbort id now who =>
+        let '(tmo, (cf, bc, (s, pend))) := t in
+        match pending_find id pend with
+        | Some q =>
+            if assessor_reached q who
+            then let '(t', e) := tstep H K t (TPlain (RX (XEnd id now))) in (t', WvOp e)
+            else ((tmo, (cf, bc, (s, pending_remove id pend))), WvPropagated tmo cf bc who (length (fst s)))
+        | None => let '(t', e) := tstep H K t (TPlain (RX (XEnd id now))) in (t', WvOp e)
+        end
+    end.
+
+  Fixpoint wtrace_from (t : tstate) (ops : list wop) : list wev :=
+    match ops with
+    | [] => []
+    | o :: rest => let '(t', e) := wstep t o in e :: wtrace_from t' rest
+    end.
+
+  Definition wtrace (tmo : Z) (cf : config) (bc : bconfig) (ops : list wop) : list wev :=
+    wtrace_from (tmo, (cf, bc, x0)) ops.
+
+  Fixpoint wsys_from (t0 t1 : tstate) (tops : list (bool * wop)) : list (bool * wev) :=
+    match tops with
+    | [] => []
+    | (b, o) :: rest =>
+        if b then let '(t1', e) := wstep t1 o in (b, e) :: wsys_from t0 t1' rest
+        else let '(t0', e) := wstep t0 o in (b, e) :: wsys_from t0' t1 rest
+    end.
+
+  Definition wsys_trace (tmo0 tmo1 : Z) (cf0 cf1 : config) (bc0 bc1 : bconfig)
+             (tops : list (bool * wop)) : list (bool * wev) :=
+    wsys_from (tmo0, (cf0, bc0, x0)) (tmo1, (cf1, bc1, x0)) tops.
+End World.
+
+(* the events of a history as in [rtrace]: an exception that left run() is an event that carries no
+   reply (the configuration in force and len(_cache), as for an assignment) *)
+Definition wrev (e : wev) : rev :=
+  match e with
+  | WvOp e' => snd e'
+  | WvPropagated _ cf bc _ n => RvSet cf bc n
+  end.
+
+Definition unworld (l : list wev) : list rev := map wrev l.
+
+(* other labels on the proteins of every operation *)
+Definition relabel (f : option str -> option str) (o : wop) : wop :=
+  match o with WLabelled sz sy a => WLabelled (f sz) (f sy) a | _ => o end.
+
+(* the labels taken off *)
+Definition unlabel (o : wop) : wop :=
+  match o with WLabelled _ _ a => WPlain a | _ => o end.
+
+(* ---------------------------------------------------------------------- *)
 (* codes shared with the harness                                            *)
 
 Definition action_code (a : action) : Z :=
@@ -821,11 +946,28 @@ Definition top_of (o : cop) : top :=
   | CSetTimeout v => TSetTimeout v
   end.
 
+(* an operation of a case: one of the above as it is; with labelled proteins; with an agent that raises a
+   BaseException that is not an Exception (the executor: [who] = false, [z] is not looked at; the assessor:
+   [who] = true, the executor having answered [z]) *)
+Inductive wcop :=
+| CPlain (c : cop)
+| CLabelled (sz sy : option str) (c : cop)              (* source_agent of the executor's / the assessor's protein *)
+| CAbort (p : str) (t : Z) (z : verdict) (who : bool)   (* run(p) at clock t, in one go *)
+| CEndAbort (id : Z) (t : Z) (who : bool).              (* the in-flight request [id] is left by the exception at clock t *)
+
+Definition wop_of (o : wcop) : wop :=
+  match o with
+  | CPlain c => WPlain (top_of c)
+  | CLabelled sz sy c => WLabelled sz sy (top_of c)
+  | CAbort p t z who => WAbort (mkReq p t z VUnknown) who
+  | CEndAbort id t who => WEndAbort id t who
+  end.
+
 (* configuration of one loop object AT CONSTRUCTION: gate logic, assessor name, enable_cache, ttl,
    enable_circuit_breaker, failure_threshold, recovery_timeout, timeout_seconds *)
 Definition lcfg := (logic * str * bool * Z * bool * Z * Z * Z)%type.
 
-Definition case := (lcfg * lcfg * nat * list (bool * cop))%type.
+Definition case := (lcfg * lcfg * nat * list (bool * wcop))%type.
 
 Definition reply_obs (cf : config) (q : req) (r : reply) : list Z :=
   let c := r_core r in
@@ -876,10 +1018,17 @@ Definition bconfig_of (l : lcfg) : bconfig :=
 Definition timeout_of (l : lcfg) : Z :=
   let '(_, _, _, _, _, _, _, tmo) := l in tmo.
 
+(* run() left by an agent's exception: [-997; executor asked; assessor asked; cache size] *)
+Definition wev_obs (x : bool * wev) : list Z :=
+  match snd x with
+  | WvOp e => rev_obs (fst x, snd e)
+  | WvPropagated _ _ _ who n => [-997; 1; b2z who; Z.of_nat n]
+  end.
+
 Definition run_case (c : case) : list (list Z) :=
   let '(l0, l1, cap, tops) := c in
   let cf0 := config_of l0 cap in
   let cf1 := config_of l1 cap in
-  map (fun x : bool * tev => rev_obs (fst x, snd (snd x)))
-      (tsys_trace (fun p => p) (fun p => p) (timeout_of l0) (timeout_of l1) cf0 cf1 (bconfig_of l0) (bconfig_of l1)
-                  (map (fun x : bool * cop => (fst x, top_of (snd x))) tops)).
+  map wev_obs
+      (wsys_trace (fun p => p) (fun p => p) (timeout_of l0) (timeout_of l1) cf0 cf1 (bconfig_of l0) (bconfig_of l1)
+                  (map (fun x : bool * wcop => (fst x, wop_of (snd x))) tops)).
